@@ -1,10 +1,11 @@
-from . import cli, streams_tables, streams_par, streams_gathermeshb
+from . import cli, streams_tables, streams_par, streams_gathermeshb, streams_physdist
 
 ID = 'C07'
-PROPS_MODULE = ['Refine.Props.C07', 'Refine.Props.C07Gather', 'Refine.Props.C07GatherMeshb']
+PROPS_MODULE = ['Refine.Props.C07', 'Refine.Props.C07Gather', 'Refine.Props.C07GatherMeshb', 'Refine.Props.C12Par']
 STREAMS = [streams_tables.PART, streams_par.GATHER_NODE, streams_par.GATHER_CELL, streams_par.GATHER_FILE,
            streams_gathermeshb.GATHERMESHB,
-           cli.NPINDEP, cli.CONVERT_MPI, cli.DISTANCE_MPI, cli.INTERP_MPI]
+           cli.NPINDEP, cli.CONVERT_MPI, cli.DISTANCE_MPI, cli.INTERP_MPI,
+           streams_physdist.PAR, streams_physdist.TAGS]
 EXPLANATION = ('Proved over the macros generated from ref_part.h: implicit block partition is a partition of [0,N) '
                'into np contiguous blocks whose sizes differ by at most one, and ref_part_implicit returns the unique '
                'block owner (for all N>=1, np>=1). '
@@ -23,6 +24,14 @@ EXPLANATION = ('Proved over the macros generated from ref_part.h: implicit block
                'list bit for bit, the same multiset of cells per group (vertex order and id kept) and the same multiset of '
                'geometry association records per type, each exactly once; gatherMeshb_chunk_independent. '
                'Tie: stream gathermeshb[np=1..5], bytes of the real ref_gather_by_extension(".meshb") == model. '
+               'Wall distance (Props/C12Par over Model/PhysDist, see C12): the parallel ref_phys_wall_distance stores at every '
+               'vertex the minimum over ALL wall elements of ALL ranks for every rank count, distribution and tree insertion order '
+               '(wallDistance_par_exact), so the value does not depend on the number of ranks: in exact arithmetic '
+               '(wallMin_np_independent) and bit for bit for any value type under the named hypothesis TreeReturnsMinOfKernelValues '
+               '(wallDistance_par_bits: MIN is commutative/associative/idempotent away from NaN and -0.0, the kernel value is a '
+               'function of (vertex, element) only, every rank sees every element). Tie: stream physdist_par - the REAL routine on '
+               'k = 1..np ranks of one mpiexec run, every stored vertex bit-compared with the 1-rank run, with its other copies and '
+               'with the model; cli_distance_tags - refmpi distance at np=2,3 against the serial file, bit for bit. '
                'Tie: the real static ref_gather_node / ref_gather_cell and ref_gather_by_extension (.meshb) under mpiexec at np = 1,2,3,4,5,8 against '
                'the model on generated worlds. End to end (no model side): translate / distance / interpolate / '
                'format conversion with ref and refmpi, outputs compared with the serial run (vertices in the same '
@@ -31,6 +40,9 @@ ASSUMPTIONS = ['C integer arithmetic is modelled with unbounded Int (no 32/64-bi
                'the gather hypothesis "every global id owned by exactly one rank" is a clause of distInv (package dist, C06)',
                'payload addition only needs 0 + x = x = x + 0; IEEE doubles satisfy it bit-for-bit except that -0.0 is '
                'gathered as +0.0 when np > 1 (numerically equal; the end-to-end comparison is numeric)',
-               'wall distance / interpolation values themselves (C12, C11) and MPI floating-point reductions are not '
-               'claimed exact here; only their transport (C17) and the gather',
+               'interpolation values (C11) and MPI floating-point reductions are not claimed exact here; only their transport (C17) '
+               'and the gather; wall distance: bit-identity across rank counts is proved modulo TreeReturnsMinOfKernelValues '
+               '(float pruning of the sphere tree drops no nearer element; proved in exact arithmetic, checked bit for bit by '
+               'physdist_par on every generated input); ref_phys_wall_distance never reduces doubles with MPI (only MIN in the '
+               'tree walk, alltoallv transport and the ghost copy)',
                'hit counts are modelled as Nat (the C adds doubles 0.0/1.0)']
